@@ -102,7 +102,7 @@ impl Check for C10 {
          creation configuration after >= 1 delete of an existing key or rollback; distinct = distinct serialized case".into()
     }
     fn cases(tier: Tier) -> u32 {
-        tier.pick(480, 6000)
+        tier.pick(1600, 16000)
     }
     fn strategy(tier: Tier) -> BoxedStrategy<History> {
         history_strategy(HistParams {
